@@ -18,4 +18,6 @@ typedef struct { pt_state_t (*fn)(pt_t *, env_t *); const ins_t *code; const cha
 
 static inline void E_emit(env_t *E, int k) { if (E->neff < 64) E->eff[E->neff] = (int16_t)k; E->neff++; }
 static inline int E_env(env_t *E, int id) { (void)id; int r = E->pos < E->nans ? E->ans[E->pos] : 1; E->pos++; return r; }
+/* the same answer as a double in (0,1): true in C, but zero once converted to an integer type */
+static inline double E_envd(env_t *E, int id) { return E_env(E, id) ? 0.5 : 0.0; }
 #endif
